@@ -158,18 +158,28 @@ func runCrashWorkload(c *CaseCtx, o crashOpts) {
 func init() {
 	register(&Check{
 		ID: "C10", Level: "fault_enumeration",
-		NCases: func(t string) int { return tier(t, 32, 640) },
+		NCases: func(t string) int { return tier(t, 32, 640) + tier(t, 3, 6) },
 		Run: func(c *CaseCtx) {
+			if base := tier(c.Tier, 32, 640); c.Case >= base {
+				runHookAudit(c, c.Case-base)
+				return
+			}
 			runCrashWorkload(c, crashOpts{Modes: []int{0, 0, 1, 2}, NTx: 12 + c.Rng.Intn(25), Failed: true, Burst: c.Case%3 == 0, Reopen: true,
 				Mode: "state", Class: "crash", SparseRead: true, Merge: c.Case%4 == 1})
 		},
 		Rule: "case = one monitored workload (all structures in KeyVal mode, KV in KeyOnly/sparse; failing, rolled-back and oversized transactions; bursts of back-to-back transactions; reopen points; FileIO/MMap; SyncEnable on/off); " +
 			"EVERY file-mutation event of the execution (open, truncate, write, sync, close, remove as reported by the verif hook) is a crash point: the directory as it is just before the event, and for each write every torn prefix at the record-field boundaries, is re-opened with the real Open and fully observed; " +
 			"oracle: recovered observation == model state of the committed prefix, or == that plus the in-flight transaction in full; non-trivial = workload produced >=20 images and rotated; distinct by workload hash",
-		Assumptions: []string{"process crash = page cache survives: the directory content at the crash point is what the next Open sees (verified for MMap: stores through the mapping are visible to read())", "a torn write leaves a prefix of the written bytes", "the verif hook reports every mutation the library makes (audited with strace in the thorough tier of C09)"},
+		Assumptions: []string{"process crash = page cache survives: the directory content at the crash point is what the next Open sees (verified for MMap: stores through the mapping are visible to read())", "a torn write leaves a prefix of the written bytes", "the verif hook reports every mutation the library makes: audited in this check by running one workload per index mode under strace and matching every mutating system call on the database directory (creating open, pwrite, write, ftruncate, fsync/msync, unlink, rename, link) against the hook events (3 audit runs quick, 6 thorough; stores through a mapping have no system call, MMapRWManager.WriteAt is their only site)"},
 		Floor: func(t string, a map[string]int64) string {
 			if a["images_opened"] < 500 || a["images_torn"] == 0 {
 				return fmt.Sprintf("only %d images", a["images_opened"])
+			}
+			if a["audit_unmatched_syscalls"] > 0 {
+				return fmt.Sprintf("hook completeness audit: %d mutating system calls on the database directory have no hook event (crash points would be missed); see the inconclusive notes", a["audit_unmatched_syscalls"])
+			}
+			if a["audit_runs"]+a["audit_skipped"] == 0 {
+				return "the hook completeness audit did not run"
 			}
 			return ""
 		},
